@@ -645,7 +645,7 @@ theorem walkStep_inv (txt layout : Str) (markers : List (Nat × Marker)) (c : Ch
           exact h.1
         · exact h
 
-theorem foldl_inv {α β : Type} (f : β → α → β) (I : β → Prop) (hf : ∀ b a, I b → I (f b a)) :
+theorem total_foldl_inv {α β : Type} (f : β → α → β) (I : β → Prop) (hf : ∀ b a, I b → I (f b a)) :
     ∀ (l : List α) (b : β), I b → I (l.foldl f b) := by
   intro l
   induction l with
@@ -659,7 +659,7 @@ theorem parseMeaningful_allSec (c : Chunk) (txt layout : Str) (markers : List (N
   unfold parseMeaningful
   simp only [hl, Bool.not_false, if_true]
   apply And.right
-  apply foldl_inv _ WalkInv (fun b a hb => walkStep_inv txt layout markers b a hb)
+  apply total_foldl_inv _ WalkInv (fun b a hb => walkStep_inv txt layout markers b a hb)
   split
   · exact getNextTwprge_inv _ (getNextSec_inv c hc)
   · exact getNextSec_inv c hc
